@@ -141,15 +141,24 @@ def have_ipv6():
 
 
 CB_SHAPE = [0]
+SEEN_SOURCE = {}
 
 
 def run_sequence(R, items, attempt=0, v6=False):
     """Returns (problems, stats).  problems: list of (kind, detail)."""
     events = []
+    SEEN_SOURCE.clear()
     loop = asyncio.new_event_loop()
+    eager = CB_SHAPE[0] % 4 == 3 and hasattr(asyncio, "eager_task_factory")
+    if eager:
+        # Python 3.12+: tasks start running inside create_task()/ensure_future(), before
+        # the statement after it - a legitimate way to set up the caller's loop
+        loop.set_task_factory(asyncio.eager_task_factory)
     loop.set_exception_handler(lambda l, ctx: events.append(("exc", repr(ctx.get("exception")), ctx.get("message"))))
 
     async def handler(trap, *extra):
+        # what the callback SEES when it is called (the object may be touched later)
+        SEEN_SOURCE[id(trap)] = getattr(trap, "source", None)
         events.append(("trap", trap))
 
     # the shapes a caller may give its callback (Callable[[Trap], Awaitable[None]])
@@ -177,7 +186,7 @@ def run_sequence(R, items, attempt=0, v6=False):
     port = free_port() if not v6 else free_port6()
     socks = {}
     problems = []
-    stats = {"valid": 0, "invalid": 0, "cb_shape": stats_shape}
+    stats = {"valid": 0, "invalid": 0, "cb_shape": stats_shape, "eager": int(eager)}
     with warnings.catch_warnings(record=True):
         warnings.simplefilter("always")
         try:
@@ -278,7 +287,7 @@ def run_sequence(R, items, attempt=0, v6=False):
         got = [(rig.oid_t(vb.oid), rig.to_tuple(vb.value)) for vb in trap.value.varbinds]
         if got != it["vbs"]:
             problems.append(("bindings", "trap %d delivered with bindings %r, sent %r" % (rid, str(got)[:200], str(it["vbs"])[:200])))
-        src = getattr(trap, "source", None)
+        src = SEEN_SOURCE.get(id(trap), getattr(trap, "source", None))
         want_addr = "::1" if v6 else it["src"]
         if src is None or (src.address, src.port) != (want_addr, it["sport"]):
             problems.append(("source", "Trap.source is %r, datagram came from %s:%d" % (src, it["src"], it["sport"])))
@@ -329,6 +338,7 @@ def run_items(R, items, label, v6=False):
     R.case(("c19", shape, kinds), stats["valid"] >= 1, sample={"label": label, "classes": [it["cls"] for it in items], "sources": [it["src"] for it in items], "delivered": stats["valid"] - sum(1 for k, _ in problems if k == "missing")} if R.evaluations % 23 == 0 else None)
     R.mon["datagrams_sent"] += len(items)
     R.mon["particular_source_ports_bound"] += stats.get("particular_source_ports", 0)
+    R.mon["sequences_on_an_eager_task_loop"] += stats.get("eager", 0)
     R.mon["loop_exception_events"] += stats.get("exc_events", 0)
     if problems:
         R.violation(case, "; ".join(d for _, d in problems[:3]), classify(problems, stats))
